@@ -137,8 +137,9 @@ def symbolic(labels):
     return frozenset(x for x in labels if x[0] == 'P')
 
 
-_LOCALS = dict()
-_SRC_KEYS = dict()
+from ..core.resolve import register_cache  # noqa: E402
+_LOCALS = register_cache(dict())
+_SRC_KEYS = register_cache(dict())
 
 
 def _local_names(fi):
